@@ -1756,6 +1756,7 @@ func (c *HostClient) AcquireConn(reqTimeout time.Duration, connectionClose bool)
 				c.connsCleanerRun = true
 			}
 		}
+		vhook("hc.acq.new", c, createConn, c.connsCount, maxConns)
 	} else {
 		switch c.ConnPoolStrategy {
 		case LIFO:
@@ -1763,11 +1764,13 @@ func (c *HostClient) AcquireConn(reqTimeout time.Duration, connectionClose bool)
 			cc = c.conns[n]
 			c.conns[n] = nil
 			c.conns = c.conns[:n]
+			vhook("hc.acq.idle", c, cc, len(c.conns), c.connsCount)
 		case FIFO:
 			cc = c.conns[0]
 			copy(c.conns, c.conns[1:])
 			c.conns[n-1] = nil
 			c.conns = c.conns[:n-1]
+			vhook("hc.acq.idle", c, cc, len(c.conns), c.connsCount)
 		default:
 			c.connsLock.Unlock()
 			return nil, ErrConnPoolStrategyNotImpl
@@ -1814,8 +1817,10 @@ func (c *HostClient) AcquireConn(reqTimeout time.Duration, connectionClose bool)
 
 		select {
 		case <-w.ready:
+			vhook("hc.wait.ready", c, w, 0, 0)
 			return w.conn, w.err
 		case <-tc.C:
+			vhook("hc.wait.timer", c, w, 0, 0)
 			if timeoutOverridden {
 				return nil, ErrTimeout
 			}
@@ -1828,6 +1833,7 @@ func (c *HostClient) AcquireConn(reqTimeout time.Duration, connectionClose bool)
 	}
 
 	conn, err := c.dialHostHard(reqTimeout)
+	vhook("hc.dial", c, conn, 0, 0)
 	if err != nil {
 		c.decConnsCount()
 		return nil, err
@@ -1845,10 +1851,12 @@ func (c *HostClient) queueForIdle(w *wantConn) {
 	}
 	c.connsWait.clearFront()
 	c.connsWait.pushBack(w)
+	vhook("hc.wait.enq", c, w, c.connsWait.len(), c.connsCount)
 }
 
 func (c *HostClient) dialConnFor(w *wantConn) {
 	conn, err := c.dialHostHard(0)
+	vhook("hc.dialfor", w, conn, 0, 0)
 	if err != nil {
 		w.tryDeliver(nil, err)
 		c.decConnsCount()
@@ -1873,6 +1881,7 @@ func (c *HostClient) CloseIdleConnections() {
 		c.conns[i] = nil
 	}
 	c.conns = c.conns[:0]
+	vhook("hc.closeidle", c, nil, len(scratch), 0)
 	c.connsLock.Unlock()
 
 	for _, cc := range scratch {
@@ -1913,6 +1922,7 @@ func (c *HostClient) connsCleaner() {
 			}
 			c.conns = conns[:m]
 		}
+		vhook("hc.clean", c, nil, len(scratch), len(c.conns))
 		c.connsLock.Unlock()
 
 		// Close idle connections.
@@ -1937,6 +1947,7 @@ func (c *HostClient) connsCleaner() {
 }
 
 func (c *HostClient) CloseConn(cc *clientConn) {
+	vhook("hc.close.begin", c, cc, 0, 0)
 	// Close the connection before giving up its slot: otherwise a new connection
 	// can be dialed while this one is still open, exceeding MaxConns.
 	cc.c.Close()
@@ -1948,6 +1959,7 @@ func (c *HostClient) decConnsCount() {
 	if c.MaxConnWaitTimeout <= 0 {
 		c.connsLock.Lock()
 		c.connsCount--
+		vhook("hc.dec", c, false, c.connsCount, 0)
 		c.connsLock.Unlock()
 		return
 	}
@@ -1959,6 +1971,7 @@ func (c *HostClient) decConnsCount() {
 		for q.len() > 0 {
 			w := q.popFront()
 			if w.waiting() {
+				vhook("hc.dec.dial", c, w, c.connsCount, q.len())
 				go c.dialConnFor(w)
 				dialed = true
 				break
@@ -1968,6 +1981,7 @@ func (c *HostClient) decConnsCount() {
 	if !dialed {
 		c.connsCount--
 	}
+	vhook("hc.dec", c, dialed, c.connsCount, 0)
 }
 
 // ConnsCount returns connection count of HostClient.
@@ -2006,10 +2020,12 @@ func releaseClientConn(cc *clientConn) {
 var clientConnPool sync.Pool
 
 func (c *HostClient) ReleaseConn(cc *clientConn) {
+	vhook("hc.rel.begin", c, cc, 0, 0)
 	cc.lastUseTime = time.Now()
 	if c.MaxConnWaitTimeout <= 0 {
 		c.connsLock.Lock()
 		c.conns = append(c.conns, cc)
+		vhook("hc.release", cc, false, len(c.conns), c.connsCount)
 		c.connsLock.Unlock()
 		return
 	}
@@ -2040,6 +2056,7 @@ func (c *HostClient) ReleaseConn(cc *clientConn) {
 	if !delivered {
 		c.conns = append(c.conns, cc)
 	}
+	vhook("hc.release", cc, delivered, len(c.conns), c.connsCount)
 }
 
 func (c *HostClient) AcquireWriter(conn net.Conn) *bufio.Writer {
@@ -2340,6 +2357,7 @@ func (w *wantConn) tryDeliver(conn *clientConn, err error) bool {
 	defer w.mu.Unlock()
 
 	if w.conn != nil || w.err != nil {
+		vhook("hc.wait.deliver", w, conn, 0, 0)
 		return false
 	}
 	w.conn = conn
@@ -2347,6 +2365,7 @@ func (w *wantConn) tryDeliver(conn *clientConn, err error) bool {
 	if w.conn == nil && w.err == nil {
 		panic("fasthttp: internal error: misuse of tryDeliver")
 	}
+	vhook("hc.wait.deliver", w, conn, 1, 0)
 	close(w.ready)
 	return true
 }
@@ -2355,6 +2374,7 @@ func (w *wantConn) tryDeliver(conn *clientConn, err error) bool {
 // If a connection has been delivered already, cancel returns it with c.releaseConn.
 func (w *wantConn) cancel(c *HostClient, err error) {
 	w.mu.Lock()
+	vhook("hc.wait.cancel.begin", w, nil, 0, 0)
 	if w.conn == nil && w.err == nil {
 		close(w.ready) // catch misbehavior in future delivery
 	}
@@ -2362,6 +2382,7 @@ func (w *wantConn) cancel(c *HostClient, err error) {
 	conn := w.conn
 	w.conn = nil
 	w.err = err
+	vhook("hc.wait.cancel", w, conn, 0, 0)
 	w.mu.Unlock()
 
 	if conn != nil {
